@@ -96,6 +96,19 @@ func freqConn(c *mon.Case, r *mon.Run, dir string, p params) {
 	rng := mon.NewRand(p.seed)
 	flag.Set("obfs4-distBias", fmt.Sprint(p.biased))
 	b := o4.NewBridge(rng, p.iat)
+	if p.shape == "small-table" {
+		// search for a seed whose table has two to four values: there every
+		// weight is large, so that a misplaced share of 1/n shows
+		for try := 0; try < 3000; try++ {
+			if n := len(weights(b.Seed, p.biased)); n >= 2 && n <= 4 {
+				r.Count("frequency_checks_on_tables_with_2_to_4_values", 1)
+				break
+			}
+			for i := range b.Seed {
+				b.Seed[i] = byte(rng.IntN(256))
+			}
+		}
+	}
 	pw := weights(b.Seed, p.biased)
 	sf, err := o4.ServerFactory(dir, b)
 	if err != nil {
